@@ -6,5 +6,20 @@ static GLOBAL: amc::alloc_count::Counting = amc::alloc_count::Counting;
 fn main() {
     amc::alloc_count::ENABLED.store(1, std::sync::atomic::Ordering::Relaxed);
     let argv: Vec<String> = std::env::args().collect();
+    if argv.get(1).map(|s| s.as_str()) == Some("replay") {
+        // amcw replay <artefact.json>: the same case with the counting allocator installed
+        amc::util::install_panic_hook();
+        if std::env::var("VERIF_BT").is_ok() {
+            amc::alloc_count::TRACE_BIG.store(1, std::sync::atomic::Ordering::Relaxed);
+        }
+        let j = amc::report::read_replay(std::path::Path::new(&argv[2]));
+        let rc = amc::bytes::replay_case(
+            j["property"].as_str().unwrap_or("C15"),
+            j["tier"].as_str().unwrap_or("quick"),
+            j["case"]["hex"].as_str().unwrap_or(""),
+            j["case"]["target"].as_str().unwrap_or("Load"),
+        );
+        std::process::exit(rc);
+    }
     std::process::exit(amc::bytes::worker_main(&argv[1..]));
 }
